@@ -129,6 +129,7 @@ type Exec struct {
 	inMerge       bool
 	pendingPhi    []phiVal
 	pcSet         map[*Term]bool
+	clockFrozen   bool
 	spc           []*Term
 	unaryBy       map[string][]*Term
 	vsets         map[string]*byteSet
